@@ -204,3 +204,173 @@ fn run_row(seed: u64, idx: usize, row: &Row, out: &mut Out) {
         out.sample(json!({"row": desc, "admitted": total_adm, "refused": total_ref, "interval_s": dt}));
     }
 }
+
+// ------------------------------------------------------------------------------------------
+// server leg: the same bounds through the real binary, every data RPC, several connections
+// ------------------------------------------------------------------------------------------
+
+const RPCS: [&str; 12] = ["Insert", "Query", "BulkQuery", "Search", "UpdateMetadata", "Delete", "BatchDelete", "BulkInsert(1)", "BulkLoadHnsw(1)", "BulkSearch(1)", "BulkInsert(stream)", "BulkSearch(stream)"];
+
+/// send one request (or one stream of `n` items); returns (admitted, refused) counts
+fn fire(cl: &mut crate::srv::Cl, rpc: &str, i: u64, n_stream: usize, v: &[f32]) -> (u64, u64) {
+    use kyrodb_engine::proto::{InsertRequest, SearchRequest};
+    use tonic::Code;
+    let lim = |c: Code| c == Code::ResourceExhausted;
+    let one = |r: Result<(), tonic::Status>| -> (u64, u64) {
+        match r {
+            Ok(()) => (1, 0),
+            Err(s) if lim(s.code()) => (0, 1),
+            Err(_) => (1, 0), // refused for another reason after admission (still counted as admitted: conservative)
+        }
+    };
+    let item = |id: u64| InsertRequest { doc_id: id, embedding: v.to_vec(), metadata: Default::default(), namespace: String::new() };
+    let sreq = || SearchRequest { query_embedding: v.to_vec(), k: 2, ..Default::default() };
+    match rpc {
+        "Insert" => one(cl.insert(1 + i % 4, v.to_vec(), Default::default(), "").map(|_| ())),
+        "Query" => one(cl.query(1, false, "").map(|_| ())),
+        "BulkQuery" => one(cl.bulk_query(vec![1, 2, 3], false, "").map(|_| ())),
+        "Search" => one(cl.search(sreq()).map(|_| ())),
+        "UpdateMetadata" => one(cl.update_metadata(1, Default::default(), true, "").map(|_| ())),
+        "Delete" => one(cl.delete(9, "").map(|_| ())),
+        "BatchDelete" => one(cl.batch_delete_ids(vec![9], "").map(|_| ())),
+        "BulkInsert(1)" => one(cl.bulk_insert(vec![item(1 + i % 4)]).map(|_| ())),
+        "BulkLoadHnsw(1)" => one(cl.bulk_load(vec![item(1 + i % 4)]).map(|_| ())),
+        "BulkSearch(1)" => match cl.bulk_search(vec![sreq()]) {
+            Ok(v) => {
+                let adm = v.iter().filter(|r| r.is_ok()).count() as u64;
+                (adm, 1 - adm.min(1))
+            }
+            Err(s) if lim(s.code()) => (0, 1),
+            Err(_) => (1, 0),
+        },
+        "BulkInsert(stream)" => match cl.bulk_insert((0..n_stream as u64).map(|k| item(1 + k % 4)).collect()) {
+            // every accepted item was admitted
+            Ok(r) => (r.total_inserted, r.total_failed),
+            Err(s) if lim(s.code()) => (0, n_stream as u64),
+            Err(_) => (0, 0),
+        },
+        _ => match cl.bulk_search((0..n_stream).map(|_| sreq()).collect()) {
+            Ok(v) => {
+                let adm = v.iter().filter(|r| r.is_ok()).count() as u64;
+                (adm, n_stream as u64 - adm)
+            }
+            Err(s) if lim(s.code()) => (0, n_stream as u64),
+            Err(_) => (0, 0),
+        },
+    }
+}
+
+pub fn run_server(args: &Args) -> Out {
+    use crate::srv::*;
+    let mut out = Out::new("C19", "server-admission");
+    let Some(bin) = args.get("server").map(|s| s.to_string()) else {
+        out.note("no server binary");
+        return out;
+    };
+    let rt = new_rt();
+    for idx in 0..args.n(16, 160) {
+        if !args.mine(idx) {
+            continue;
+        }
+        let mut rng = Rng::derive(args.seed, idx as u64, 0xC19_5);
+        let rate = *rng.pick(&[2u32, 3, 5, 8]);
+        let global = *rng.pick(&[6usize, 10, 100_000]);
+        let conns = *rng.pick(&[1usize, 2, 4]);
+        // one tenant per RPC kind (separate buckets), plus three tenants for the global / no-refusal rows
+        let mut tenants: Vec<TenantSpec> = RPCS.iter().enumerate().map(|(i, _)| TenantSpec { id: format!("t{}", i), max_vectors: 100_000, max_qps: rate, enabled: true, admin: false }).collect();
+        for i in 0..3 {
+            tenants.push(TenantSpec { id: format!("g{}", i), max_vectors: 100_000, max_qps: 40, enabled: true, admin: false });
+        }
+        let cfg = SrvCfg { dim: 4, tenants, rate_limit: Some((100_000, global)), fsync: "none_is_refused_use_data_only", ..Default::default() };
+        let cfg = SrvCfg { fsync: "data_only", ..cfg };
+        let desc = json!({"check":"C19","leg":"server-admission","seed":args.seed,"case":idx,"tenant_max_qps":rate,"global":global,"connections":conns});
+        let mut srv = Srv::new(cfg, &bin, rt.clone());
+        if let Err(e) = srv.start() {
+            out.inconclusive(format!("server start failed: {}", e));
+            continue;
+        }
+        let v = crate::model::gen_unit_vec(&mut rng, 4);
+        let mut bad = false;
+        let mut total_admitted_global_phase = 0u64;
+        // row A: every RPC kind, own tenant, `conns` connections in parallel, 30 requests each
+        let t_all0 = Instant::now();
+        for (ri, rpc) in RPCS.iter().enumerate() {
+            let tenant = format!("t{}", ri);
+            let per_conn = 30usize;
+            let stream = rpc.ends_with("(stream)");
+            let mut handles = Vec::new();
+            let t0 = Instant::now();
+            for c in 0..conns {
+                let Ok(mut cl) = srv.tenant_client(&tenant) else { continue };
+                let (rpc, v) = (rpc.to_string(), v.clone());
+                handles.push(std::thread::spawn(move || {
+                    let (mut a, mut r) = (0u64, 0u64);
+                    if stream {
+                        let (x, y) = fire(&mut cl, &rpc, c as u64, per_conn, &v);
+                        a += x;
+                        r += y;
+                    } else {
+                        for i in 0..per_conn as u64 {
+                            let (x, y) = fire(&mut cl, &rpc, i + c as u64, 0, &v);
+                            a += x;
+                            r += y;
+                        }
+                    }
+                    (a, r)
+                }));
+            }
+            let (mut adm, mut refd) = (0u64, 0u64);
+            for h in handles {
+                if let Ok((a, r)) = h.join() {
+                    adm += a;
+                    refd += r;
+                }
+            }
+            let dt = t0.elapsed().as_secs_f64();
+            total_admitted_global_phase += adm;
+            let bound = rate as f64 + rate as f64 * dt + 1.0;
+            out.count("server_requests", (conns * per_conn) as u64);
+            out.count("server_refused_by_rate_limit", refd);
+            // the global limit can only lower the admitted count, so the tenant bound is checked in every row
+            if adm as f64 > bound {
+                out.violation(
+                    format!("server-tenant-bound-exceeded|{}", rpc),
+                    format!("tenant {} (max_qps {}) had {} {} requests admitted over {} connection(s) in {:.3}s > {} + {}*dt + 1 = {:.1}", tenant, rate, adm, rpc, conns, dt, rate, rate, bound),
+                    json!({"desc":desc,"rpc":rpc}),
+                );
+                bad = true;
+            }
+        }
+        let dt_all = t_all0.elapsed().as_secs_f64();
+        if global < 100_000 {
+            let bound = global as f64 + global as f64 * dt_all + 1.0;
+            if total_admitted_global_phase as f64 > bound {
+                out.violation("server-global-bound-exceeded", format!("{} requests admitted across tenants in {:.3}s > global {} + {}*dt + 1 = {:.1}", total_admitted_global_phase, dt_all, global, global, bound), desc.clone());
+                bad = true;
+            }
+        }
+        // row B: no spurious refusal: after an idle second every bucket is full again; three tenants
+        // (max_qps 40) send 10 requests each = 30 <= global only when the global limit is large
+        if global >= 100_000 {
+            std::thread::sleep(Duration::from_millis(1100));
+            for i in 0..3 {
+                let Ok(mut cl) = srv.tenant_client(&format!("g{}", i)) else { continue };
+                let mut refd = 0;
+                for k in 0..10u64 {
+                    refd += fire(&mut cl, "Query", k, 0, &v).1;
+                }
+                if refd > 0 {
+                    out.violation("server-spurious-refusal", format!("tenant g{} (max_qps 40, global {}) had {} of 10 requests refused from a full bucket", i, global, refd), desc.clone());
+                    bad = true;
+                }
+            }
+        }
+        srv.kill9();
+        out.eval();
+        out.distinct(&desc.to_string());
+        if !bad && idx % 4 == 0 {
+            out.sample(json!({"case":desc,"rpc_kinds":RPCS.len(),"admitted_in_row_A":total_admitted_global_phase}));
+        }
+    }
+    out
+}
